@@ -25,6 +25,10 @@ POOL = {
     "n1": ("param", ["n0"], "rm"),
     "c0": ("param", ["kp"], "rm"),
     "c2": ("param", ["kp"], "rm"),
+    # constants of kind kp whose initial value contains NO literal
+    "rr": ("param", ["kp", "n0"], "rm"),
+    "rn": ("param", ["kp", "n0"], "rm"),
+    "rp": ("param", ["kp", "n0", "n1"], "rm"),
     "v0": ("param", ["n0"], "rm"),
     "x0": ("local", ["kp"], "rm"),
     "w0": ("local", ["n1"], "rm"),
@@ -62,12 +66,31 @@ def order_perms(subset):
     return list(itertools.permutations(range(len(subset))))
 
 
-def build_order(scope, subset, perm):
+#: name the kind parameter gets in the "rename" variant
+RENAMED_KIND = "kq"
+
+
+def order_items(tier):
+    """-> list of [scope, subset, perm, rename]: every insertion order of every
+    subset, plus - for the orders that add the kind parameter `kp` FIRST - a
+    variant in which `kp` is afterwards renamed with SymbolTable.rename_symbol,
+    which re-inserts it at the END of the table (behind its users)."""
+    items = []
+    for scope, subset in order_specs(tier):
+        for perm in order_perms(subset):
+            items.append([scope, list(subset), list(perm), False])
+            if subset[perm[0]] == "kp":
+                items.append([scope, list(subset), list(perm), True])
+    return items
+
+
+def build_order(scope, subset, perm, rename=False):
     """Builds the PSyIR: entities are created first (so that they can refer to
-    each other), then ADDED to the table in the order given by perm."""
+    each other), then ADDED to the table in the order given by perm; with
+    `rename` the kind parameter is finally renamed (moved to the end)."""
     # pylint: disable=import-outside-toplevel,too-many-locals
     from psyclone.psyir.nodes import (BinaryOperation, Container, Literal,
-                                      Reference, Routine)
+                                      Reference, Routine, UnaryOperation)
     from psyclone.psyir.symbols import (
         ArgumentInterface, ArrayType, CHARACTER_TYPE, DataSymbol,
         DataTypeSymbol, INTEGER_TYPE, REAL_TYPE, ScalarType, StructureType,
@@ -104,6 +127,26 @@ def build_order(scope, subset, perm):
             rkp = ScalarType(ScalarType.Intrinsic.REAL, syms["kp"])
             sym = DataSymbol("c2", rkp, is_constant=True,
                              initial_value=Literal("2.0", REAL_TYPE))
+        elif name == "rr":
+            # plain reference to another constant
+            rkp = ScalarType(ScalarType.Intrinsic.REAL, syms["kp"])
+            sym = DataSymbol("rr", rkp, is_constant=True,
+                             initial_value=Reference(syms["n0"]))
+        elif name == "rn":
+            # unary minus of another constant
+            rkp = ScalarType(ScalarType.Intrinsic.REAL, syms["kp"])
+            sym = DataSymbol("rn", rkp, is_constant=True,
+                             initial_value=UnaryOperation.create(
+                                 UnaryOperation.Operator.MINUS,
+                                 Reference(syms["n0"])))
+        elif name == "rp":
+            # product of two constants
+            rkp = ScalarType(ScalarType.Intrinsic.REAL, syms["kp"])
+            sym = DataSymbol("rp", rkp, is_constant=True,
+                             initial_value=BinaryOperation.create(
+                                 BinaryOperation.Operator.MUL,
+                                 Reference(syms["n0"]),
+                                 Reference(syms["n1"])))
         elif name == "v0":
             sym = DataSymbol("v0", ArrayType(INTEGER_TYPE,
                                              [Reference(syms["n0"])]),
@@ -153,6 +196,8 @@ def build_order(scope, subset, perm):
     table = SymbolTable()
     for idx in perm:
         table.add(syms[subset[idx]])
+    if rename:
+        table.rename_symbol(syms["kp"], RENAMED_KIND)
     if scope == "r":
         args = [syms[n] for n in subset if POOL[n][0] == "arg"]
         table.specify_argument_list(args)
@@ -160,8 +205,9 @@ def build_order(scope, subset, perm):
     return Container.create("c04m", table, [])
 
 
-def order_key(scope, subset, perm):
-    return f"ord:{scope}:" + ",".join(subset[i] for i in perm)
+def order_key(scope, subset, perm, rename=False):
+    return f"ord:{scope}:" + ",".join(subset[i] for i in perm) + \
+        ("+rename(kp)" if rename else "")
 
 
 # ---------------------------------------------------------------------------
